@@ -15,7 +15,13 @@ import (
 )
 
 func init() {
-	core.Register(core.Check{ID: "C16", Level: "model_checking", Run: func(c *core.Ctx) { runC16(c); historyPass(c, "C16"); reentrancyPass(c, "C16"); arch386Pass(c, "C16") }})
+	core.Register(core.Check{ID: "C16", Level: "model_checking", Run: func(c *core.Ctx) {
+		waitArch := background(func() { arch386Pass(c, "C16") })
+		runC16(c)
+		historyPass(c, "C16")
+		reentrancyPass(c, "C16")
+		waitArch()
+	}})
 }
 
 const c16Window = 89 // h + d <= 89 for strings of <= 90 characters; must not be widened (see DESIGN.md)
